@@ -217,7 +217,9 @@ def run_check(prop, tier, seed, keep=False):
             nscen += 1
             total_events += len(evs)
             st = scen_stats(evs)
-            if st["spec_steps"]:
+            if st["spec_steps"] and evs[0].get("attack"):
+                spec_tot["attacks"] = spec_tot.get("attacks", 0) + 1
+            elif st["spec_steps"]:
                 spec_tot["behaviours"] += 1
                 spec_tot["steps"] += st["spec_steps"]
                 spec_tot["matched"] += st["spec_matched"]
@@ -276,6 +278,7 @@ def run_check(prop, tier, seed, keep=False):
         "spec_behaviours_replayed": spec_tot["behaviours"], "spec_steps_compared": spec_tot["steps"],
         "spec_steps_matched": spec_tot["matched"], "conformance_drift_steps": spec_tot["drift"],
         "conformance_first_drifts": spec_tot["first_drifts"],
+        "attack_schedules_replayed": spec_tot.get("attacks", 0),
         "checker_cmd": "tlc Monitors.tla (Props={%s}) over recorded traces; tlc %s" % (prop, spec.get("mc")),
     }
     if not cov["states"]:
